@@ -241,7 +241,7 @@ theorem writeUtf8Chunk_valid (p : Bytes) (h : validFrag p) :
       have : (Utf8.scan p).fin = .done := h
       rw [this]
     simp only [he, Bool.false_eq_true, if_false, hs]
-    simp [writeLoop, he]
+    simp [writeLoop]
 
 theorem writeAll_valid_parts : ∀ (parts : List Bytes), (∀ p ∈ parts, validFrag p) →
     writeAll Resync.new parts = some ⟨parts.filter (fun p => !p.isEmpty), .ok Resync.new⟩ := by
